@@ -734,6 +734,13 @@ def c13(ctx):
                             "want_path": path_to(node), "got_path": path_to(got)})
                 break
     ctx.notes["trees_with_duplicate_ids"] = len(dup_roots)
+    # clone_from_root of nodes that have been through in-place rewrites (same node objects, changed
+    # ancestors): random in-place rule walks, see props_rules.inplace_walk_case
+    from .props_rules import inplace_family
+    iprobs, _ = inplace_family(ctx, "C13")
+    for pr_ in iprobs[:5]:
+        bad.append({"tree": pr_.get("state"), "problem": pr_["what"], "start": pr_["start"], "sequence": pr_["sequence"],
+                    "node": pr_.get("node"), "after_in_place_rewrites": True})
     # generic shapes: also against the pointer-level clone model (cells of the copy, by pre-order)
     drv = core.Driver()
     gshapes = all_shapes(5 if quick else 7)
